@@ -220,7 +220,66 @@ def explore(seq, full):
     return out, len(seen), ntrans, calls
 
 
+def check_copies_and_types(seq):
+    """(1) objects obtained from shuffles that cannot change the sequence are still independent objects;
+    (2) positions given as numpy integers of any width inside a list / tuple / array behave like plain ints."""
+    import numpy as np
+    out = []
+    calls = 0
+    N = len(seq)
+    sty = [i + 1 for i, a in enumerate(seq) if a in "STY"]
+    case = {"kind": "copies", "seq": seq}
+    if sty:
+        for route in ("shuffle-all-frozen", "shuffle-all-frozen-after"):
+            try:
+                parent = SP(seq)
+                if route == "shuffle-all-frozen":
+                    parent.set_phosphosites(list(sty))
+                child = parent.get_shuffled_sequence(frozen=set(range(N)))
+                calls += 2
+                if child.get_sequence() != seq:
+                    continue
+                if route == "shuffle-all-frozen":
+                    if child.get_phosphosites() != []:
+                        out.append({"key": "copy-shares-phosphosites", "what": "%s: a shuffled copy (all positions frozen) of an object with "
+                                    "sites %r starts with sites %r" % (seq, sty, child.get_phosphosites()), "case": case})
+                    child.clear_phosphosites()
+                    if parent.get_phosphosites() != sty:
+                        out.append({"key": "copy-shares-phosphosites", "what": "%s: clearing the copy changed the original's sites to %r"
+                                    % (seq, parent.get_phosphosites()), "case": case})
+                else:
+                    child.set_phosphosites(list(sty))
+                    if parent.get_phosphosites() != []:
+                        out.append({"key": "copy-shares-phosphosites", "what": "%s: set_phosphosites on a shuffled copy changed the original "
+                                    "to %r" % (seq, parent.get_phosphosites()), "case": case})
+            except Exception as e:  # noqa
+                out.append({"key": "query-raises", "what": "%s: shuffled-copy scenario raised %r" % (seq, e), "case": case})
+    # numpy integers
+    ints = list(range(-1, N + 2))
+    for dt in (np.int8, np.int16, np.int32, np.int64, np.uint8, np.uint16, np.uint32):
+        for make in ("list", "tuple", "array"):
+            vals = [x for x in ints if x >= 0 or np.issubdtype(dt, np.signedinteger)]
+            arg = [dt(x) for x in vals]
+            arg = arg if make == "list" else (tuple(arg) if make == "tuple" else np.array(vals, dtype=dt))
+            exp = model_set(seq, [], [int(x) for x in vals])
+            calls += 1
+            try:
+                o = SP(seq)
+                o.set_phosphosites(arg)
+                got = o.get_phosphosites()
+            except Exception as e:  # noqa
+                out.append({"key": "set-raises", "what": "%s: set_phosphosites(%s of %s) raised %r" % (seq, make, dt.__name__, e),
+                            "case": dict(case, dtype=dt.__name__, container=make)})
+                continue
+            if got != exp:
+                out.append({"key": "phosphosites-list", "what": "%s: set_phosphosites(%s of %s %r) -> %r, model says %r"
+                            % (seq, make, dt.__name__, vals, got, exp), "case": dict(case, dtype=dt.__name__, container=make)})
+    return out, calls
+
+
 def replay(case):
+    if case.get("kind") == "copies":
+        return check_copies_and_types(case["seq"])[0]
     seq = case["seq"]
     hist = [tuple(h) if isinstance(h, list) else h for h in case["history"]]
     hist = [(h[0], (h[1] if not isinstance(h[1], list) else h[1])) for h in hist]
@@ -245,6 +304,11 @@ def shard(items):
     acc = core.Acc()
     for seq, full in items:
         v, nst, ntr, calls = explore(seq, full)
+        if len(seq) >= 3:
+            v2, c2 = check_copies_and_types(seq)
+            v = v + v2
+            calls += c2
+            ntr += c2
         acc.states += nst
         acc.transitions += ntr
         acc.traces += ntr
@@ -284,7 +348,7 @@ def run(tier, seed, t0):
              "the S/T/Y sites). In every state: get_phosphosites == model, sequence unchanged, get_phosphosequence = E at exactly "
              "those positions, get_kappa_after_phosphorylation = kappa of a fresh object on that sequence, distribution has 2^k "
              "entries in binary counting order whose six numbers equal those of the substituted sequence, "
-             "get_all_phosphorylatable_sites constant; non-trivial = states with >=1 site" % (
+             "get_all_phosphorylatable_sites constant; for every sequence of >=3 residues a shuffled copy with all positions frozen must be an independent object (sites neither inherited nor shared), and positions given as numpy integers of seven widths in lists/tuples/arrays must behave like ints; non-trivial = states with >=1 site" % (
                  "over {S,Y,K,G}, length 1..3" if tier == "quick" else "over {S,T,Y,K,E,G}, length 1..4; over {S,Y,K}, length 5"),
         bounds={"words": len(items), "depth": "fixpoint"},
         assumptions=["other object state (delta-max cache etc.) is C15's job; non-integer positions are not in the property"])
